@@ -26,8 +26,10 @@ package agreement
 // Decisions added to the NetDrive schedule language (executed by this file, all others by ndRun.exec):
 //
 //	hcrash <n> <point> <k>                 arm: node n crashes at its k-th next hit of hook point <point>: the crash DB is
-//	                                       snapshotted there, everything the incarnation does afterwards is discarded (network
-//	                                       output dropped, DB reverted to the snapshot), then the node restarts on it
+//	                                       snapshotted there, the goroutine that reached the point stops there (and, through the
+//	                                       node's hook mutex, every other goroutine of the node that reaches a hook point) until
+//	                                       the harness has begun the shutdown; whatever the incarnation still does is discarded
+//	                                       (network output dropped, DB reverted to the snapshot); then the node restarts on it
 //
 // Environment: as NetDrive, plus VERIF_C02_ARM (per-mille of decisions that arm a hook crash, default by profile),
 // VERIF_C02_EXTRA (generated decisions appended after a replayed schedule, default 0).
